@@ -1,3 +1,116 @@
+"""h5py as seen by the code under test: an in-memory store.
+
+file path -> ordered mapping key -> dataset (deep copy of the structured array written, or the empty
+`shape=()` placeholder) with an attribute dictionary; `keys()` iterates in alphabetical order as h5py does
+by default; attribute values come back as stored.  Everything about HDF5 itself (type conversion, on-disk
+layout) is outside the model; the float replays use the real h5py."""
 import types
+
+import numpy as _np
+
 from .. import core
-module = types.ModuleType("h5store")
+from ..records import SymRecArray, SymRecord
+
+STORE = {}
+
+
+class _Attrs(dict):
+    pass
+
+
+class EmptyDataset:
+    """dataset created with shape=() and no data"""
+    shape = ()
+    ndim = 0
+
+    def __init__(self):
+        self.attrs = _Attrs()
+
+    def __iter__(self):
+        raise TypeError("Can't iterate over a scalar dataset")
+
+    def __len__(self):
+        raise TypeError("Attempt to take len() of scalar dataset")
+
+    def __getitem__(self, k):
+        raise ValueError("Field names only allowed for compound types")
+
+
+class Dataset(SymRecArray):
+    def __init__(self, arr):
+        cp = arr.copy()
+        SymRecArray.__init__(self, 0, cp.dtype, cp._recs)
+        self.attrs = _Attrs()
+
+    def __iter__(self):
+        return iter([r.copy() for r in self._recs])      # reading yields fresh rows
+
+    def __getitem__(self, k):
+        v = SymRecArray.__getitem__(self, k)
+        return v.copy() if hasattr(v, "copy") else v
+
+
+class File:
+    def __init__(self, path, mode="r", **kw):
+        self.path = str(path)
+        self.mode = mode
+        if mode in ("w", "w-", "x"):
+            STORE[self.path] = dict(data={}, attrs=_Attrs())
+        elif mode in ("r", "r+", "a"):
+            if self.path not in STORE:
+                if mode == "a":
+                    STORE[self.path] = dict(data={}, attrs=_Attrs())
+                else:
+                    raise FileNotFoundError(f"Unable to open file {self.path}")
+        else:
+            raise ValueError(f"invalid mode {mode}")
+        self._f = STORE[self.path]
+
+    def __enter__(self):
+        return self
+
+    def __exit__(self, *a):
+        return False
+
+    def close(self):
+        pass
+
+    @property
+    def attrs(self):
+        return self._f["attrs"]
+
+    def keys(self):
+        return sorted(self._f["data"].keys())
+
+    def __iter__(self):
+        return iter(self.keys())
+
+    def __len__(self):
+        return len(self._f["data"])
+
+    def __contains__(self, k):
+        return k in self._f["data"]
+
+    def __getitem__(self, k):
+        return self._f["data"][k]
+
+    def create_dataset(self, name, shape=None, dtype=None, data=None, **kw):
+        if self.mode == "r":
+            raise ValueError("Unable to create dataset (file is read-only)")
+        if name in self._f["data"]:
+            raise ValueError(f"Unable to create dataset (name already exists): {name}")
+        if data is None:
+            if shape not in ((), None):
+                raise core.Abort("unsupported", "h5 model: create_dataset with a shape and no data")
+            ds = EmptyDataset()
+        elif isinstance(data, SymRecArray):
+            ds = Dataset(data)
+        else:
+            raise core.Abort("unsupported", f"h5 model: dataset of type {type(data).__name__}")
+        self._f["data"][name] = ds
+        return ds
+
+
+module = types.ModuleType("h5py")
+module.File = File
+module.STORE = STORE
